@@ -281,9 +281,8 @@ def gen_orders(rng, thorough):
                 if n == 1:
                     pairs = anyp
                 else:
-                    if n == 3:
-                        pairs = rng.sample(pairs, min(len(pairs), 250))
-                    pairs = every + pairs + rng.sample(anyp, 200)
+                    pairs = rng.sample(pairs, min(len(pairs), 150 if n == 3 else 250))
+                    pairs = every + pairs + rng.sample(anyp, 100)
             for a, b in pairs:
                 pre = interleave(rng, [[["K", k]] * 3 for k in range(n)]) + [["IOS"]]
                 step = rng.random() < 0.5
@@ -559,10 +558,10 @@ def run(ctx):
             gen_orders(ctx.rng, not quick),
             gen_loss(ctx.rng, not quick, 80),
             gen_race(ctx.rng, not quick, 100),
-            gen_close(ctx.rng, not quick, 220 if quick else 2500),
-            gen_after_gone(ctx.rng, 130 if quick else 1500),
-            gen_odd_frames(ctx.rng, 130 if quick else 1500),
-            gen_random(ctx.rng, 260 if quick else 3500, 18 if quick else 30),
+            gen_close(ctx.rng, not quick, 220 if quick else 1500),
+            gen_after_gone(ctx.rng, 130 if quick else 900),
+            gen_odd_frames(ctx.rng, 130 if quick else 900),
+            gen_random(ctx.rng, 260 if quick else 2000, 18 if quick else 30),
         ]
         for g in gens:
             for case in g:
